@@ -57,5 +57,29 @@ fn k7_combine_function_scores_minmax_len_le_3() {
   }
 }
 
+// ---- decay functions: the distance normalisation, cut out mechanically (kani/score_slices.tpl) ----
+include!("/verif/.cache/gen/score_slices.rs");
+
+// C10 (documented decay): inside the offset band around the origin there is no decay at all - the normalised distance
+// is exactly 0 - and outside it the distance counts from the edge of the band; it is never negative
+#[kani::proof]
+fn k7_decay_norm_clamped_inside_offset_band() {
+  let value: f64 = kani::any();
+  let origin: f64 = kani::any();
+  let offset: f64 = kani::any();
+  let scale: f64 = kani::any();
+  kani::assume(value.is_finite() && origin.is_finite() && offset.is_finite() && scale.is_finite());
+  kani::assume(offset >= 0.0 && scale > 0.0);
+  kani::assume(value.abs() < 1.0e150 && origin.abs() < 1.0e150 && offset < 1.0e150);
+  let norm = decay_norm(value, &origin, &offset, &scale);
+  let d = (value - origin).abs();
+  assert!(norm >= 0.0);
+  if d <= offset {
+    assert!(norm == 0.0);
+  }
+  kani::cover!(d <= offset && d > 0.0);
+  kani::cover!(d > offset);
+}
+
 // concrete-playback tests (empty unless a failed harness is being replayed)
 include!("/verif/.cache/gen/playback_score_functions.rs");
